@@ -1,12 +1,16 @@
 package vuego
 
 import (
+	"fmt"
 	"strings"
 
 	"golang.org/x/net/html"
 
 	"github.com/titpetric/vuego/internal/helpers"
 )
+
+// maxSlotDepth bounds nested expansion of supplied slot content (same limit as includes and layouts).
+const maxSlotDepth = 100
 
 // SlotContent holds the processed content for a slot along with any scoped props.
 type SlotContent struct {
@@ -76,6 +80,14 @@ func (v *Vue) evalSlot(ctx VueContext, node *html.Node, slotScope *SlotScope) ([
 
 			// If the slot content is a template with v-slot, evaluate it with the props
 			if slotContent.TemplateNode != nil {
+				// Slot content that contains a <slot> of the same name expands itself again:
+				// bound the nesting so that it ends in an error, not in a stack overflow.
+				if ctx.slotDepth >= maxSlotDepth {
+					return nil, fmt.Errorf("slot %q: nesting exceeded maximum of %d, slot content probably refers to its own slot (in %s)",
+						slotName, maxSlotDepth, ctx.FormatTemplateChain())
+				}
+				ctx.slotDepth++
+
 				// Extract scoped variable name from the template's v-slot attribute
 				scopedVarName := ""
 				for _, attr := range slotContent.TemplateNode.Attr {
